@@ -192,7 +192,7 @@ func Main(t *testing.T, id string, gen func(thorough bool) []Scenario) {
 					idx = append(idx, strconv.Itoa(i))
 				}
 				cmd := exec.Command(os.Args[0], "-test.run", "^"+t.Name()+"$", "-test.timeout", "0")
-				cmd.Env = append(os.Environ(), "VERIF_SHARD="+strings.Join(idx, ","), "GOMAXPROCS=2", "VERIF_TIER="+c.Tier)
+				cmd.Env = append(os.Environ(), "VERIF_SHARD="+strings.Join(idx, ","), "GOMAXPROCS=1", "VERIF_TIER="+c.Tier)
 				out, _ := cmd.StdoutPipe()
 				cmd.Stderr = os.Stderr
 				if err2 := cmd.Start(); err2 != nil {
@@ -326,6 +326,9 @@ func worker(t *testing.T, shard string, gen func(bool) []Scenario) {
 		if rt.Poisoned.Load() {
 			break // the parent restarts a fresh worker on the rest of the batch
 		}
+	}
+	if os.Getenv("VERIF_PROFILE") != "" {
+		return
 	}
 	// leftover goroutines of a poisoned bubble would make the test binary hang or panic
 	os.Exit(0)
